@@ -23,7 +23,7 @@ ASSUMPTIONS = [
     "a value supplied for a non-settable parameter (constant, reserved, matching request) may be rejected or ignored (C08)",
     "requested vs decoded uses the value equivalence of DESIGN 2.5 (True == 1, 3.0 == 3, bytes == bytearray are equal)",
 ]
-MUST_HIT = ["sweep:A_UINT32", "sweep:A_INT32:2C", "sweep:A_INT32:1C", "sweep:A_INT32:SM", "sweep:BCD", "outcome:rejected",
+MUST_HIT = ["minmax-sweep:A_UNICODE2STRING", "minmax-sweep:A_BYTEFIELD", "sweep:A_UINT32", "sweep:A_INT32:2C", "sweep:A_INT32:1C", "sweep:A_INT32:SM", "sweep:BCD", "outcome:rejected",
             "outcome:accepted", "mut:int-out-of-range", "mut:struct-missing-required", "mut:struct-unknown-param",
             "mut:mux", "mut:bytes", "mut:str", "mut:wrong-type", "mut:list"]
 
@@ -186,6 +186,58 @@ def run_sweep(spec, seed, tier) -> core.ShardResult:
     return res
 
 
+def run_minmax_sweep(spec, seed, tier) -> core.ShardResult:
+    """exhaustive: MIN-MAX-LENGTH leaves of every string/byte type, byte order and termination followed by one
+    byte, x all values of up to 3 code units over {terminator unit, units sharing one byte with it, plain unit}"""
+    import itertools
+    _, part, nparts = spec
+    res = core.ShardResult()
+    kf = known.load(PROPERTY)
+    u8 = {"t": "std", "bt": "A_UINT32", "bl": 8, "enc": None, "hl": None}
+    idx = 0
+    for bt in ("A_BYTEFIELD", "A_ASCIISTRING", "A_UTF8STRING", "A_UNICODE2STRING"):
+        for hl in (True, False):
+            for term in ("ZERO", "HEX-FF"):
+                for mn in (0, 1):
+                    for mx in (None, 3):
+                        idx += 1
+                        if idx % nparts != part:
+                            continue
+                        unit = 2 if bt == "A_UNICODE2STRING" else 1
+                        tb = 0x00 if term == "ZERO" else 0xFF
+                        if bt == "A_BYTEFIELD":
+                            alpha = [bytes([tb]), b"\x41", bytes([tb ^ 0x01]), b"\x7f"]
+                        elif bt == "A_UNICODE2STRING":
+                            alpha = [chr(tb << 8 | tb), chr(0x4100 | tb), chr(tb << 8 | 0x41), "\u4141"]
+                        else:
+                            alpha = [chr(tb), "A", chr(tb ^ 0x01), "z"]
+                        dct = {"t": "minmax", "bt": bt, "min": mn * unit, "max": None if mx is None else mx * unit,
+                               "term": term, "enc": None, "hl": hl}
+                        pt = "A_BYTEFIELD" if bt == "A_BYTEFIELD" else "A_UNICODE2STRING"
+                        msg = {"kind": "request", "params": [
+                            {"pk": "value", "name": "s", "pos": 0, "bit": 0, "default": None,
+                             "dop": {"k": "simple", "id": "d1", "dct": dct, "compu": {"c": "IDENTICAL"}, "pt": pt}},
+                            {"pk": "value", "name": "z", "pos": None, "bit": 0, "default": None,
+                             "dop": {"k": "simple", "id": "d2", "dct": dict(u8), "compu": {"c": "IDENTICAL"}, "pt": "A_UINT32"}}]}
+                        ld = mh.Loaded({"msg": msg, "values": {}, "request": None})
+                        for n in range(0, 4):
+                            for combo in itertools.product(alpha, repeat=n):
+                                v = b"".join(combo) if bt == "A_BYTEFIELD" else "".join(combo)
+                                case = {"stage": "sweep", "msg": msg, "values": {"s": v, "z": 0x5A}, "request": None}
+                                cls = {"minmax-sweep", "minmax-sweep:" + bt}
+                                fs = judge(ld, case, case["values"], res, cls, f"minmax {bt}/{term}/hl={hl}")
+                                has_term = any(c == alpha[0] for c in combo)
+                                res.note({"bt": bt, "hl": hl, "term": term, "min": mn, "max": mx, "v": v}, has_term or n > (mx or 9),
+                                         cls, sample=(has_term and len(res.samples) < 4))
+                                for f in fs:
+                                    f.features["bucket"] = f"{f.clause}:minmax:{bt}"
+                                    _collect(res, f, kf)
+    res.stages["minmax-sweep"] = res.evaluations
+    res.exhaustive_subspaces.append("MIN-MAX-LENGTH leaves: 4 base types x byte order x ZERO/HEX-FF x MIN 0/1 x MAX none/3 x every "
+                                    "value of <= 3 code units over a 4-letter alphabet around the terminator")
+    return res
+
+
 def _collect(res, f, kf):
     k = known.match(kf, f)
     if k is not None:
@@ -267,12 +319,14 @@ def replay(case) -> list:
 
 
 def shards(tier):
-    return [("sweep", i, 6) for i in range(6)] + [("hyp", i) for i in range(10)]
+    return [("sweep", i, 6) for i in range(6)] + [("minmax", i, 2) for i in range(2)] + [("hyp", i) for i in range(8)]
 
 
 def run_shard(spec, seed, tier):
     if spec[0] == "sweep":
         return run_sweep(spec, seed, tier)
+    if spec[0] == "minmax":
+        return run_minmax_sweep(spec, seed, tier)
     res = core.ShardResult()
     kf = known.load(PROPERTY)
 
@@ -285,7 +339,7 @@ def run_shard(spec, seed, tier):
             else:
                 out.append(f)
         return out
-    n = 1000 if tier == "quick" else 8000
+    n = 1000 if tier == "quick" else 20000
     found = core.hyp_search(mutated_case(), body, seed, n, shrink_budget_s=30)
     if found:
         res.failures.extend(found)
